@@ -31,8 +31,11 @@ func TestGenC11(t *testing.T) {
 		pan := bubble(t, func(t *testing.T) {
 			base := runtime.NumGoroutine()
 			start := time.Now()
+			var evMu sync.Mutex // Accept and Dial log from their own goroutines
 			ev := func(side string, format string, a ...interface{}) {
+				evMu.Lock()
 				lines = append(lines, fmt.Sprintf("%s %d %s", side, int64(time.Since(start)), fmt.Sprintf(format, a...)))
+				evMu.Unlock()
 			}
 			relay := newFakeRelay()
 			ctx, cancel := context.WithCancel(context.Background())
@@ -112,6 +115,8 @@ func TestGenC11(t *testing.T) {
 			// faultyClose: the relay reports errors when streams are closed
 			faultyClose := rr.chance(1, 3)
 			var nextAccept *pend
+			var clientRecvSID [64]byte
+			haveClientRecvSID := false
 			for round := 0; round < rounds; round++ {
 				// Accept and Dial are issued at a random offset relative to the previous close:
 				// "early" = while the previous connection is still open
@@ -169,6 +174,15 @@ func TestGenC11(t *testing.T) {
 				} else {
 					closePrev()
 					time.Sleep(time.Duration(rr.intn(2000)) * time.Millisecond)
+					if haveClientRecvSID && rr.chance(1, 2) {
+						// packets of the previous connection still sitting in the client's receive mailbox: the new
+						// handshake must skip them (anything but a SYN is ignored while waiting for the SYN)
+						for _, stale := range [][]byte{{3, 0}, {4, 1}, {2, 0, 1, 1}}[:1+rr.intn(3)] {
+							if relay.inject(string(clientRecvSID[:]), stale) {
+								q.stat("stale_packets_before_redial", 1)
+							}
+						}
+					}
 					call()
 				}
 				done := make(chan struct{})
@@ -221,6 +235,9 @@ func TestGenC11(t *testing.T) {
 				// versa, and the two directions differ
 				if a0, ok := cc2.LocalAddr().(*mailbox.Addr); ok {
 					a1, _ := cc2.RemoteAddr().(*mailbox.Addr)
+					if a1 != nil {
+						clientRecvSID, haveClientRecvSID = a1.SID, round >= 1 // from round 1 on the rendezvous stays
+					}
 					b0, _ := sc2.LocalAddr().(*mailbox.Addr)
 					b1, _ := sc2.RemoteAddr().(*mailbox.Addr)
 					lineUp := a1 != nil && b0 != nil && b1 != nil && a0.SID == b1.SID && a1.SID == b0.SID && a0.SID != a1.SID
